@@ -57,6 +57,19 @@ func c01(cx *Ctx, r *ev.Report) {
 			r.Violate("C01/catalogue/documented="+a.Enc, "CATALOGUE: every documented encoding has an arm", a.Pos, "documented instruction "+a.Info.Name+" is decoded as unsupported")
 		}
 	}
+	// Step without a request is exactly one run of the decoder from the
+	// unmodified state - the link between the arms and the public entry point
+	if sa := cx.stepAnalysis(); sa.err != nil {
+		r.Undecide("C01/step", "STEP-EQ(row no-request)", cx.P.Pos(cx.E.Step.Pos()), sa.err.Error())
+	} else {
+		for _, row := range sa.rows {
+			if row.name != "no-request" {
+				continue
+			}
+			ds := diffStrings(cx.E.CompareUnder(sa.impl, sa.ref, row.pred), nil)
+			r.Check(len(ds) == 0, "C01/step/row="+row.name, "STEP-EQ(row no-request): with no request pending, (*CPU).Step runs the decoder exactly once from the unmodified state and does nothing else (so the effect of a Step is the effect of the arm, for every state incl. HALT set)", cx.P.Pos(cx.E.Step.Pos()), "summary-equality", ds...)
+		}
+	}
 	r.Hold("C01/catalogue/decoder-shape", "CATALOGUE: the decoder is a constant decode over opcode fetches resolved by constant propagation", cx.P.Pos(cx.E.Exec.Pos()), "shape")
 	summaryReport(cx, r, nil)
 	r.Explanation = "All 1786 opcode-byte prefixes (main, CB, ED, DD, FD, DDCB, FDCB) are specialised; each implemented arm's closed-form summary is compared with the reference model's for every CPU field (A,F,BC,DE,HL, alternates, IX,IY,SP,PC,I,R,IFF1,IFF2,IM,HALT and the non-architectural fields, which must stay unchanged) and for the multiset of memory/port writes. Address arithmetic is compared modulo 2^16 as bit-vector functions, so wrap-around needs no separate case. Unimplemented undocumented encodings must equal 'bytes consumed, warning logged'."
@@ -103,6 +116,29 @@ func c05(cx *Ctx, r *ev.Report) {
 			return isBusEvent(d) || (a.Info.Class == "io" || a.Info.Class == "block") && isStateLike(d)
 		}})
 	r.Analysed["arms_selected"] = n
+	// Step's own bus traffic: on every row of the decision table the device
+	// calls Step makes around the decoder equal the reference's (none when the
+	// instruction at PC is executed; the pushes and the vector read when a
+	// request is accepted); mode-0 instructions are fetched from the request
+	if sa := cx.stepAnalysis(); sa.err != nil {
+		r.Undecide("C05/step", "EVENTS-EQ(step row)", cx.P.Pos(cx.E.Step.Pos()), sa.err.Error())
+	} else {
+		ruleS := "EVENTS-EQ(step row): the guarded multiset of Memory/IO calls made by (*CPU).Step outside the decoder equals the reference decision table's on the row's pre-states"
+		for _, row := range sa.rows {
+			ds := diffStrings(cx.E.CompareUnder(sa.impl, sa.ref, row.pred), func(d engine.Diff) bool { return isBusEvent(d) || eventKind(d) == isa.KindExec })
+			r.Check(len(ds) == 0, "C05/step/row="+row.name, ruleS, cx.P.Pos(cx.E.Step.Pos()), "summary-equality", ds...)
+		}
+		ruleI := "EVENTS-EQ(IM0 instr): a mode-0 RST p / CALL nn is fetched entirely from the request's data (no read of program memory) and makes no port access; its pushes are compared under C07 (known finding F3)"
+		for _, ic := range sa.im0 {
+			key := "C05/im0/instr=" + ic.name
+			if ic.und != nil {
+				r.Undecide(key, ruleI, cx.P.Pos(cx.E.Step.Pos()), ic.und.Error())
+				continue
+			}
+			ds := diffStrings(ic.diffs, func(d engine.Diff) bool { return isBusEvent(d) && eventKind(d) != isa.KindMemSet })
+			r.Check(len(ds) == 0, key, ruleI, cx.P.Pos(cx.E.Step.Pos()), "summary-equality", ds...)
+		}
+	}
 	summaryReport(cx, r, nil)
 	nev := 0
 	for _, a := range cx.Arms() {
